@@ -27,7 +27,7 @@ ResetModel ==
 Apply(e) ==
   LET j == e.job IN
   IF e.op = "add" THEN
-     IF j \notin present THEN Add(j, IF e.due THEN {1, 2} ELSE {}, FALSE) ELSE UNCHANGED vars
+     IF j \notin present THEN Add(j, IF e.due THEN 1..50 ELSE {}, FALSE) ELSE UNCHANGED vars
   ELSE IF e.op = "remove" THEN IF j \in present THEN Remove(j) ELSE UNCHANGED vars
   ELSE IF e.op = "disable" THEN IF j \in enabled THEN Disable(j) ELSE UNCHANGED vars
   ELSE IF e.op = "enable" THEN IF j \in present /\ j \notin enabled THEN Enable(j) ELSE UNCHANGED vars
